@@ -161,9 +161,12 @@ static void shop(const Args& a, bool withmodel) {
   if (withmodel) {
     std::string o2 = current_op();
     for (int l = 0; l < c.L; ++l) { o2 += " " + std::to_string(c.sets[size_t(l)].C.size()) + " " + std::to_string(c.sets[size_t(l)].S.size()); for (double d : c.sets[size_t(l)].C) o2 += " " + hx(d); for (double d : c.sets[size_t(l)].S) o2 += " " + hx(d); }
+    // what the circle evaluation is given: p = hypot(x, y) and (sin, cos) of the longitude in degrees, as CircularEngine::operator()(lon) forms them
+    double slon, clon; Math::sincosd(lon, slon, clon);
+    o2 += " " + hx(p) + " " + hx(slon) + " " + hx(clon);
     current_op() = o2;
   }
-  emit(hx(v) + " " + hx(gx) + " " + hx(gy) + " " + hx(gz) + " " + hx(vc) + " " + hx(mag) + " " + hx(gmag));
+  emit(hx(v) + " " + hx(gx) + " " + hx(gy) + " " + hx(gz) + " " + hx(vc) + " " + hx(mag) + " " + hx(gmag) + " " + hx(double(om.bound)) + " " + hx(vcg) + " " + hx(cgx) + " " + hx(cgy) + " " + hx(cgz));
   if (!(std::isfinite(mag) && std::isfinite(gmag) && mag < 1e290 && gmag < 1e290)) { stat("sh-overflow-skipped"); return; }
   // documented accuracy class of the harmonic sums: 1e-12 relative to sum|terms| for degree <= 32, growing linearly with the length of the recurrences
   const double rel = 1e-12 * std::fmax(1.0, (N + 1) / 32.0);
@@ -583,11 +586,12 @@ static Reg r_ngj("ngj", [](const Args& a) {
   if (!(std::fabs(double(no.J2any() - J2)) <= 1e-12 * (std::fabs(J2) + double(m)) + 1e-16)) bad("normal-J2", "H+M 2-90 at the returned flattening gives " + fmt(double(no.J2any())) + " for J2 = " + fmt(J2));
 });
 
-// op: ngu GM omega a f u(hex) beta(deg)  -- the closed form in ellipsoidal coordinates, for the Lean model (oblate only)
+// op: ngu GM omega a f u(hex) beta(deg)  -- the closed form in ellipsoidal coordinates, for the Lean models (oblate, prolate, sphere)
 static Reg r_ngu("ngu", [](const Args& a) {
   double GM = unhx(a[0]), om = unhx(a[1]), ea = unhx(a[2]), f = unhx(a[3]), u = unhx(a[4]), beta = unhx(a[5]);
-  double b = ea * (1 - f), E = ea * std::sqrt(f * (2 - f)), sb, cb; Math::sincosd(beta, sb, cb);
-  double X = std::hypot(u, E) * cb, Z = u * sb, gx, gy, gz, U = 0, j2 = 0;
+  // f > 0: u = polar semi-axis, hypot(u, E) the equatorial one; f < 0 (prolate): u = polar semi-axis > E, sqrt(u^2 - E^2) the equatorial one; f = 0: E = 0
+  double b = ea * (1 - f), E = ea * std::sqrt(std::fabs(f * (2 - f))), sb, cb; Math::sincosd(beta, sb, cb);
+  double X = (f >= 0 ? std::hypot(u, E) : std::sqrt((u - E) * (u + E))) * cb, Z = u * sb, gx, gy, gz, U = 0, j2 = 0;
   std::string ex = guarded([&] { NormalGravity n(ea, GM, om, f, true); U = n.U(X, 0, Z, gx, gy, gz); j2 = NormalGravity::FlatteningToJ2(ea, GM, om, f); });
   if (!ex.empty()) { emit(ex); return; }
   current_op() += " " + hx(b) + " " + hx(E) + " " + hx(sb) + " " + hx(cb);
@@ -737,7 +741,7 @@ void gv::generate(const std::string& tier, uint64_t seed) {
     }
     double lat = r.irange(0, 5) ? r.range(-90, 90) : r.pick(std::vector<double>{90, -90, 0, 45}), h = a * (r.irange(0, 2) ? r.range(0, 0.1) : r.range(0, 5)), lon = r.range(-180, 180);
     run("ng", {hx(a), hx(GM), hx(om), hx(f), hx(lat), hx(h), hx(lon)}); stratum("ng-ell" + std::to_string(k));
-    if (i % 4 == 0 && f > 1e-5) { run("ngu", {hx(GM), hx(om), hx(a), hx(f), hx(a * (1 - f) * (r.irange(0, 2) ? 1.0 : r.range(1, 3))), hx(r.range(-90, 90))}); stratum("ngu"); }
+    if (i % 4 == 0 && (std::fabs(f) > 1e-5 || f == 0)) { run("ngu", {hx(GM), hx(om), hx(a), hx(f), hx(a * (1 - f) * (r.irange(0, 2) ? 1.0 : r.range(1, 3))), hx(r.range(-90, 90))}); stratum(f > 0 ? "ngu" : f < 0 ? "ngu-prolate" : "ngu-sphere"); }
     if (i % 4 == 1) { double m = om * om * a * a * a / GM; run("ngj", {hx(a), hx(GM), hx(om), hx(r.coin() ? r.range(-0.01, 0.03) - m / 3 : r.range(-0.3, 0.2))}); stratum("ngj"); }
   }
 }
